@@ -205,7 +205,7 @@ def run(ctx):
                 "operands), reload() on random items and queries; after EVERY step get_name() of all items and get_string() of all const-string instructions are compared with a "
                 "dictionary model of current names. distinct non-trivial = distinct (length class, #items, shared names?, #renames, reload used?)")
     ctx.assumptions = ["a class rename may legitimately change descriptors that mention the class; only names are compared"]
-    n = 320 if ctx.quick else 100000
+    n = 320 if ctx.quick else 500000
     ctx.run_shards(MOD, "shard", [[i, n // 16] for i in range(16)], timeout=3000)
     ctx.require_counter("history_steps", 500)
     ctx.require_counter("names_compared", 2000)
